@@ -26,7 +26,15 @@ def _mesh_makers():
         'tri1': lambda: mesh.unitsquare(1, 'triangle'),
         'tri2': lambda: mesh.unitsquare(2, 'triangle'),
         'mixed2': lambda: mesh.unitsquare(2, 'mixed'),
+        'prodXY': lambda: _product(mesh),
     }
+
+
+def _product(mesh):
+    from nutils import function
+    X, x = mesh.line(2, space='X')
+    Y, y = mesh.line(3, space='Y')
+    return X * Y, numpy.stack([x, y])
 
 
 def _objects_of(name, dom, geom, out):
@@ -37,8 +45,12 @@ def _objects_of(name, dom, geom, out):
         except Exception:
             pass
     topos = {'': dom}
+    trim = name in ('line2', 'rect22', 'tri1')
     for k, f in (('.boundary', lambda: dom.boundary), ('.interfaces', lambda: dom.interfaces), ('.refined', lambda: dom.refined), ('[:1]', lambda: dom[:1]),
-                 ('.refined_by0', lambda: dom.refined_by([0]))):
+                 ('.refined_by0', lambda: dom.refined_by([0])), ('.trimmed', lambda: dom.trim(geom[0] - .7, maxrefine=1)),
+                 ('.trimmed.boundary', lambda: dom.trim(geom[0] - .7, maxrefine=1).boundary)):
+        if 'trimmed' in k and not trim:
+            continue
         try:
             topos[k] = f()
         except Exception:
@@ -61,6 +73,10 @@ def _objects_of(name, dom, geom, out):
             put(sk + '.points', lambda: smp.points)
             put(sk + '.points[0]', lambda: smp.points[0])
             put(sk + '.transforms', lambda: tuple(smp.transforms))
+            if tk == '':
+                put(sk + '.take_elements', lambda: smp.take_elements(numpy.array([0])))
+                put(sk + '+self', lambda: smp + smp)
+                put(sk + '.zip', lambda: smp.zip(smp))
             if tk in ('', '.boundary') and degree <= 2 and ischeme == 'gauss':
                 put(sk + '.integral(x0)', lambda: smp.integral(geom[0]).as_evaluable_array)
                 put(sk + '.integral(1)', lambda: smp.integral(1.).as_evaluable_array)
